@@ -24,8 +24,8 @@ type tcase struct {
 	comment string
 }
 
-func big64(x int64) *big.Int   { return big.NewInt(x) }
-func bigU(x uint64) *big.Int   { return new(big.Int).SetUint64(x) }
+func big64(x int64) *big.Int      { return big.NewInt(x) }
+func bigU(x uint64) *big.Int      { return new(big.Int).SetUint64(x) }
 func mulB(a, b *big.Int) *big.Int { return new(big.Int).Mul(a, b) }
 func addB(a, b *big.Int) *big.Int { return new(big.Int).Add(a, b) }
 func subB(a, b *big.Int) *big.Int { return new(big.Int).Sub(a, b) }
@@ -121,6 +121,18 @@ func Run(outDir string, seed int64, tier string) error {
 		} else {
 			addNR(p, g, g+rng.Int63n((1<<50)+1)>>uint(rng.Intn(50)), true, "random")
 		}
+	}
+	// (iii') the same instant asked for several chains in a row (one daemon runs several beacons,
+	// often with the same period): the conversion depends on the genesis of the chain it is asked for
+	for i := 0; i < nrand/10+20; i++ {
+		p := int64(1) + rng.Int63n(120)
+		now := int64(1_600_000_000) + rng.Int63n(1<<28)
+		g1 := now - rng.Int63n(1<<27)
+		g2 := now - rng.Int63n(1<<20)
+		addNR(p, g1, now, true, "same-instant-two-chains")
+		addNR(p, g2, now, true, "same-instant-two-chains")
+		addNR(p, now+1+rng.Int63n(1000), now, false, "same-instant-two-chains")
+		addNR(p, g1, now, true, "same-instant-two-chains")
 	}
 	// (iv) malformed / outside the property's domain: the model keeps the wrap explicit, so it
 	// must still agree (negative period, genesis beyond 2^32, instants before genesis)
